@@ -1,6 +1,6 @@
 (* C15/Corr.v -- correspondence checkers (executed at Q by the shards). *)
 From Coq Require Import ZArith QArith List Bool.
-From Verif Require Import Base.Num Base.Vec Base.Check C15.Model.
+From Verif Require Import Base.Num Base.Vec Base.Check C15.Syntax C15.Model.
 Import ListNotations.
 
 (* which public factory: nearest_interpolator | linear_interpolator | per_axis_interpolator *)
